@@ -626,7 +626,13 @@ func (f *Frame) load(st *State, l Loc, pos token.Pos) Term {
 					if !isEmptyStruct(stt.Field(i).Type()) {
 						fs = f.sortOf(stt.Field(i).Type())
 					}
-					v = app(fs, structFieldSel(v.Sort, name), v)
+					if isOpaqueStruct(curT) {
+						// a struct declared outside the repository is represented by its identity alone: a field of it is an
+						// uninterpreted function of that identity
+						v = vc.ufApp("opq_"+mangle(structName(curT))+"_"+mangle(name), fs, v)
+					} else {
+						v = app(fs, structFieldSel(v.Sort, name), v)
+					}
 					curT = f.subst(stt.Field(i).Type())
 					break
 				}
